@@ -1,5 +1,7 @@
 import Zrnt.Driver.Loop
 import Zrnt.Util.C19Driver
+import Zrnt.PubkeyCache.Driver
+import Zrnt.Pool.Driver
 import Zrnt.Config.C14Driver
 import Zrnt.State.C15Driver
 import Zrnt.Fault.Driver
@@ -7,6 +9,7 @@ import Zrnt.Beacon.C02Driver
 import Zrnt.Beacon.BlockDriver
 import Zrnt.Beacon.BlockPiecesDriver
 import Zrnt.Beacon.GenesisDriver
+import Zrnt.Beacon.CtxDriver
 import Zrnt.Gossip.Driver
 import Zrnt.SSZ.Driver
 import Zrnt.Shuffle.Driver
@@ -17,12 +20,15 @@ namespace Zrnt.Driver
 def modes : List Mode := [
   Zrnt.ForkChoice.Driver.fc09Mode, Zrnt.ForkChoice.Driver.fc10Mode, Zrnt.ForkChoice.Driver.fc11Mode,
   Zrnt.Util.c19Mode,
+  Zrnt.PubkeyCache.c16Mode,
+  Zrnt.Pool.Driver.c20Mode,
   Zrnt.Config.c14Mode,
   Zrnt.State.c15Mode,
   Zrnt.Fault.c18Mode,
   Zrnt.Beacon.c02Mode,
   Zrnt.Beacon.Block.c01Mode, Zrnt.Beacon.Block.c03Mode, Zrnt.Beacon.Block.blockWhyMode, Zrnt.Beacon.BlockPieces.piecesMode,
   Zrnt.Beacon.Genesis.c13Mode,
+  Zrnt.Beacon.Ctx.c08Mode,
   Zrnt.Gossip.Driver.c12Mode,
   Zrnt.SSZ.Driver.sszMode,
   Zrnt.SSZ.Driver.sszStateMode,
